@@ -142,7 +142,10 @@ func InsertedClusters(pctx networking.EnvoyFilter_PatchContext, efw *model.Merge
 				continue
 			}
 			if commonConditionMatch(pctx, cp) {
-				result = append(result, proto.Clone(cp.Value).(*cluster.Cluster))
+				// An ADD patch without a value (rejected by validation) has nothing to insert.
+				if c, ok := cp.Value.(*cluster.Cluster); ok && c != nil {
+					result = append(result, proto.Clone(c).(*cluster.Cluster))
+				}
 			}
 		}
 	}
